@@ -29,7 +29,9 @@ from common import Check
 import c20_gen
 
 PID = "C20"
-SCRATCH = os.path.join(common.WORK, "c20")
+TAG = "" if common.REPO == "/repo" else "_" + common.sha(common.REPO)[:6]   # concurrent runs on scratch worktrees
+SCRATCH = os.path.join(common.WORK, "c20" + TAG)
+ONLY = os.environ.get("VERIF_C20_ONLY")   # development knob: regex restricting the maps
 WORKERS = int(os.environ.get("VERIF_WORKERS", "8"))
 DEFAULTS = {"ref_points": 20, "tolerance": 0.05, "fill_gaps": True, "fill_intersections": True,
             "elide_short_roads": False}
@@ -40,6 +42,8 @@ def find_maps():
     maps, skipped = [], []
     for root in ("assets/maps", "tests/formats/opendrive/maps"):
         for p in sorted(glob.glob(os.path.join(common.REPO, root, "**", "*.xodr"), recursive=True)):
+            if ONLY and not re.search(ONLY, p):
+                continue
             (maps if os.path.getsize(p) > 0 else skipped).append(p)
     return maps, skipped
 
@@ -169,50 +173,67 @@ def coq_frame_case(opts):
     return f"([{';'.join(kvs)}], {coq_bytes(frame_bytes(opts))})"
 
 
-# ----------------------------------------------------------------------------- one (map, options) case
-def run_case(job):
-    """Runs in a worker thread: implementation driver, then the kernel on the generated file."""
-    out_json = os.path.join(SCRATCH, job["name"] + ".json")
-    job = dict(job, out=out_json)
+# ----------------------------------------------------------------------------- a chunk of (map, options) cases
+def run_chunk(args):
+    """Runs in a worker thread: ONE implementation process for the chunk's jobs, then ONE coqc on the
+    generated file holding every network of the chunk."""
+    ci, chunk = args
+    jobs = [dict(j, out=os.path.join(SCRATCH, j["name"] + ".json")) for j in chunk]
     t0 = time.time()
+    crash = None
     try:
-        common.run_impl("impl_c20.py", job, timeout=3000)
-        res = json.load(open(out_json))
+        common.run_impl("impl_c20.py", dict(kind="batch", jobs=jobs), timeout=6000)
     except Exception as e:  # noqa
-        return dict(job=job, crash=str(e)[-3000:])
-    finally:
-        if os.path.exists(out_json):
-            os.remove(out_json)
-    res["impl_s"] = round(time.time() - t0, 2)
-    res["job"] = job
-    if "parsed" not in res:
-        return res
-    # ---- generated file
-    mod = "C20_Net_" + re.sub(r"\W", "_", job["name"])
-    text, it, man_base = c20_gen.map_file(mod, res["parsed"], res["cached"])
-    tol = res["tolerance"]
-    cases, meta = point_cases(res, it)
-    pts = ";\n  ".join(f"({t}%N, {c20_gen._l(it, ex)}, {c20_gen._l(it, wi)}, {c20_gen._o(it, arg)}, {c20_gen._o(it, exp)})"
-                       for (t, ex, wi, arg, exp) in cases)
-    text += f"""Definition pts : list pt_case := [{pts}].
-Definition ptbad := Eval vm_compute in pts_bad parsed {'true' if tol > 0 else 'false'} pts.
-Print ptbad.
+        crash = str(e)[-3000:]
+    results = []
+    for j in jobs:
+        if os.path.exists(j["out"]):
+            res = json.load(open(j["out"]))
+            os.remove(j["out"])
+        else:
+            res = dict(crash=crash or "no result written")
+        res["job"] = j
+        results.append(res)
+    impl_s = round(time.time() - t0, 2)
+    return coq_chunk(f"C20_Nets{TAG}_{ci}", results, impl_s)
+
+
+def coq_chunk(mod, results, impl_s=0.0):
+    text = c20_gen.HEADER
+    for k, res in enumerate(results):
+        if "parsed" not in res:
+            continue
+        S = f"_{k}"
+        t, it, man_base = c20_gen.map_file(res["job"]["name"], res["parsed"], res["cached"], S)
+        tol = res["tolerance"]
+        cases, meta = point_cases(res, it)
+        pts = ";\n  ".join(f"({t_}%N, {c20_gen._l(it, ex)}, {c20_gen._l(it, wi)}, {c20_gen._o(it, arg)}, {c20_gen._o(it, exp)})"
+                           for (t_, ex, wi, arg, exp) in cases)
+        t += f"""Definition pts{S} : list pt_case := [{pts}].
+Definition ptbad{S} := Eval vm_compute in pts_bad parsed{S} {'true' if tol > 0 else 'false'} pts{S}.
+Print ptbad{S}.
 """
+        text += t
+        res.update(names={str(a): b for a, b in it.names.items()}, man_base=man_base, pt_meta=meta, n_cases=len(cases), suffix=S)
     t1 = time.time()
-    ok, out = common.run_coq_cases(mod, text, timeout=1500)
-    res["coq_s"] = round(time.time() - t1, 2)
-    res["coq_ok"] = ok
-    res["coq_out"] = out[-3000:] if not ok else ""
+    ok, out = common.run_coq_cases(mod, text, timeout=2400)
+    coq_s = round(time.time() - t1, 2)
+    live = [r for r in results if "parsed" in r]
+    if not ok and len(live) > 1:
+        # localise: re-run every network of the chunk on its own
+        for k, res in enumerate(live):
+            coq_chunk(f"{mod}_only{k}", [res])
+        return results
     pr = c20_gen.parse_printed(out) if ok else {}
-    m = re.search(r"^ptbad =\s*(.*?)\n\s*: ", out, flags=re.S | re.M)
-    res["ptbad"] = [int(x) for x in re.findall(r"(\d+)%N", m.group(1))] if m else None
-    res["printed"] = {k: v for k, v in pr.items()}
-    res["names"] = {str(k): v for k, v in it.names.items()}
-    res["man_base"] = man_base
-    res["pt_meta"] = meta
-    res["gen"] = os.path.join(common.GEN, mod + ".v")
-    res["n_cases"] = len(cases)
-    return res
+    for res in live:
+        S = res["suffix"]
+        res["coq_ok"] = ok
+        res["coq_out"] = out[-3000:] if not ok else ""
+        res["printed"] = {k[:-len(S)]: v for k, v in pr.items() if k.endswith(S) and not k.startswith("ptbad")}
+        res["ptbad"] = pr.get("ptbad" + S)
+        res["gen"] = os.path.join(common.GEN, mod + ".v")
+        res["impl_s"], res["coq_s"] = impl_s / len(results), coq_s / len(live)
+    return results
 
 
 TAGS = [("element", 0, None), ("road", 1, None), ("lane", 2, None), ("intersection", 3, None), ("sidewalk", 4, None),
@@ -547,12 +568,18 @@ def main():
         sel = [j for j in jobs if os.path.relpath(j["map_orig"], common.REPO) == case.get("map") and j["opts"] == case.get("opts")
                and j.get("mutation") == case.get("mutation")]
         jobs = sel or jobs[:3]
-    # biggest first so that the pool drains evenly
+    # longest-processing-time-first packing of the jobs into one chunk per worker
     jobs.sort(key=lambda j: -os.path.getsize(j["map"]))
+    chunks = [[] for _ in range(min(WORKERS, len(jobs)))]
+    load = [0] * len(chunks)
+    for j in jobs:
+        k = load.index(min(load))
+        chunks[k].append(j)
+        load[k] += os.path.getsize(j["map"]) + 150_000
     results = []
-    with cf.ThreadPoolExecutor(WORKERS) as ex:
-        for r in ex.map(run_case, jobs):
-            results.append(r)
+    with cf.ThreadPoolExecutor(len(chunks)) as ex:
+        for rs in ex.map(run_chunk, list(enumerate(chunks))):
+            results += rs
     cache_terms = []
     for r in results:
         terms = judge(c, r)
@@ -570,7 +597,7 @@ def main():
             "Definition cbad := Eval vm_compute in failing_idx cache_ok cc 0%N.\nPrint cbad.\n"
             "Definition fc : list (list (list byte * option (list byte)) * list byte) := [\n " + ";\n ".join(frames) + "].\n"
             "Definition fbad := Eval vm_compute in failing_idx frame_ok fc 0%N.\nPrint fbad.\n")
-    ok, out = common.run_coq_cases("C20_Cache", text, timeout=900)
+    ok, out = common.run_coq_cases("C20_Cache" + TAG, text, timeout=900)
     if not ok:
         c.violation("kernel", "gen/C20_Cache.v does not check", dict(log=out[-2000:]), no_input=True)
     else:
